@@ -25,8 +25,8 @@ ASSUMPTIONS = [
     'no control requests are issued (quantifier of C18)',
 ]
 BUDGET = {
-    'quick': {'enum': ['pairs', 'nested', 'ctl', 'hookctl', 'wcfail'], 'hyp': 2000, 'shards': 8},
-    'thorough': {'enum': ['pairs', 'triples', 'nested', 'ctl', 'hookctl', 'wcfail'], 'hyp': 80000, 'shards': 16},
+    'quick': {'enum': ['pairs', 'nested', 'ctl', 'hookctl', 'wcfail', 'orphan'], 'hyp': 2000, 'shards': 8},
+    'thorough': {'enum': ['pairs', 'triples', 'nested', 'ctl', 'hookctl', 'wcfail', 'orphan'], 'hyp': 80000, 'shards': 16},
 }
 S = gen.S
 OWN_HOOKS = ('on_run', 'on_running', 'on_wait', 'on_waiting', 'on_exit_running', 'on_exit_waiting', 'on_output_emitted', 'on_entered', 'on_entering', 'on_exiting', 'on_finish', 'on_finished')
@@ -83,6 +83,19 @@ def enumerate_cases(tier, scope):
                 if other:
                     procs.append({'program': SHAPES[other], 'pid': 2})
                 yield {'procs': procs, 'start_gaps': [0, gap][: len(procs)], 'nested': False}
+        return
+    if scope == 'orphan':
+        # a fire-and-forget child is finalised by the garbage collector while another process is in the middle of a step
+        launcher = {'steps': [S([['orphan', 90]], ['value', 1])]}
+        worker = {'steps': [S([['yield'], ['gc'], ['yield'], ['out', 'x', 1], ['yield']], ['continue', 1, [], {}], True), S([['yield'], ['soon', 'ok', 'c1']], ['value', 2], True)]}
+        for gap in (2, 3, 4, 5):
+            for other in (None, 'y3', 'sync'):
+                procs = [{'program': launcher, 'pid': 1}, {'program': worker, 'pid': 2}]
+                gaps = [0, gap]
+                if other:
+                    procs.append({'program': SHAPES[other], 'pid': 3})
+                    gaps.append(1)
+                yield {'procs': procs, 'start_gaps': gaps, 'nested': False}
         return
     if scope == 'wcfail':
         # a workchain whose awaited child (or one of two) fails or is killed: the wait itself raises in the parent's step,
@@ -317,6 +330,7 @@ def execute(case):
                     break
         outside.append(Process.current())
 
+        has_orphan = any(item[0] == 'orphan' for p in case['procs'] if 'program' in p for st_ in p['program']['steps'] for item in st_['body'])
         if any(o is not None for o in outside):
             v('harness-sees-process', 'Process.current() is not None between event-loop callbacks')
         sites = {}
@@ -325,6 +339,8 @@ def execute(case):
                 if 'cur' not in e:
                     continue
                 site = e['k']
+                if site == 'exit' and e.get('outcome') == 'raised' and has_orphan and str(pid).endswith('/90'):
+                    continue  # the orphan's step being finalised by the garbage collector, in whatever context that is
                 sites[site] = sites.get(site, 0) + 1
                 if not e['cur']:
                     v('current-in-user-code', f"pid {pid}: {site} of {e.get('step', e.get('tag'))}: Process.current() is not the process")
@@ -351,6 +367,8 @@ def execute(case):
         for ctx in loop.escapes():
             if ctx['exc_type'] == 'ProgError':
                 continue
+            if has_orphan and 'Task was destroyed but it is pending' in ctx['message']:
+                continue  # that is what an orphan is
             v('loop-exception', f"{ctx['message'][:70]} {ctx['exc_type']}: {ctx['exc_str']}")
             break
         n_children = len(w.extra.get('children', []))
